@@ -44,6 +44,26 @@ def run(db, chk):
         chk.ob("failed-pack-persist-stops", "inner_write", bool(e["bad"]) and not any(ip.block in rb for ip in idx_p), "index is persisted although persisting the pack failed", dp.where(), key="failed-pack-persist-stops")
     eff = [(c.name, c.line) for g in [f] + db.closures_of(f) for c in g.calls() if FSM.search(c.name)]
     chk.ob("fs-effect-allow-list", "inner_write direct file-system effects", sorted({e[0] for e in eff}) == ["std::fs::write"], str(eff), "%s:%d" % (f.file, f.line), key="fs-effect|inner_write")
+    # thin-pack completion rewrites entry headers: the CRC32 that ends up in the index must be recomputed with them
+    nh = 0
+    for g in db.by_crate["gix_pack"]:
+        if "::data::input::" not in g.name or g.kind == "promoted":
+            continue
+        gfl = None
+        for bi, si, pl, rv, ln, mc in g.assigns():
+            if len(pl) >= 2 and pl[-1] == ".header" and "input::types::Entry" in g.locals[pl[0]].replace("gix_pack::data::input::Entry", "input::types::Entry") or \
+               (len(pl) >= 2 and pl[-1] == ".header" and re.search(r"data::input::(types::)?Entry", g.locals[pl[0]])):
+                nh += 1
+                base = pl[0]
+                crc_blocks = {b2 for b2, s2, pl2, rv2, l2, m2 in g.assigns() if len(pl2) >= 2 and pl2[-1] == ".crc32" and pl2[0] == base}
+                if bi in crc_blocks and any(s2 > si for b2, s2, pl2, rv2, l2, m2 in g.assigns() if b2 == bi and len(pl2) >= 2 and pl2[-1] == ".crc32" and pl2[0] == base):
+                    ok = True
+                else:
+                    escaped = g.reach_from(bi, avoid=crc_blocks - {bi})
+                    ok = not (set(g.return_blocks()) & escaped)
+                chk.ob("crc-recomputed-with-header", "%s header rewritten@%d" % (g.name.split("gix_pack::data::input::")[-1], ln), ok,
+                       "an entry's header is rewritten without recomputing its crc32 on every path to return: the index would store a CRC that does not match the pack bytes", "%s:%d" % (g.file, ln), key="crc-with-header|%s" % g.name)
+    chk.floor("entry header rewrites in data::input", nh, 1)
     # tempfile ownership
     tys = " ".join(f.locals)
     chk.ob("tempfile-ownership", "index file is a gix_tempfile::Handle", "gix_tempfile::Handle<gix_tempfile::handle::Writable>" in tys, "", key="tempfile|index")
